@@ -147,7 +147,8 @@ OnNew(e) ==
             cap0s |-> e.caps, caps |-> e.caps, fnE |-> e.fn, bsz |-> IF mine = {} THEN 0 ELSE st.blocks[MaxOf(mine)].size,
             \* memory_arena driven directly: the block stacks (block numbers, top = last)
             used |-> <<>>, cach |-> <<>>, acached |-> e.acached,
-            ssz |-> e.ssz, sbs |-> e.sbs]      \* static source: size of the storage and of its blocks (0: not known)
+            ssz |-> e.ssz, sbs |-> e.sbs,      \* static source: size of the storage and of its blocks (0: not known)
+            pools |-> e.pools]                 \* memory_pool_collection: number of free lists (0: not a collection)
       famOk == e.r \in OomFamily \cup SizeFamily \/ (e.r = "throw:injected" /\ e.upf > 0)
   IN Result([st EXCEPT !.objs = Append(@, o), !.pend = <<>>, !.inj = 0],
        Chk(ok \/ famOk, "C03", "ThrowIsLibraryFamily", <<"new", e.r>>)
@@ -263,6 +264,13 @@ OnAlloc(e) ==
                   \/ LET brought == e.cap1 - e.cap0 + o.ns
                      IN IF o.type = "small" THEN brought <= e.ncap0 /\ e.ncap0 < brought + o.ns + 64 ELSE brought = e.ncap0,
                 "C18", "GrowthBringsWhatWasAnnounced", <<o.type, o.ns, e.cap0, e.cap1, e.ncap0>>)
+       \* the composable interface of a collection never grows: a bucket that ran empty gets the default reservation
+       \* (current block / number of buckets) or, when that does not fit any more, ALL that is left of the block -
+       \* capacity_left() is 0 then, it does not keep reporting bytes that belong to the bucket
+       \cup Chk(~(o.fam = "coll" /\ o.pools > 0 /\ e.t /\ e.ups = 0 /\ e.cap0 > e.cap1 /\ mine # {})
+                  \/ LET defcap == (st.blocks[MaxOf(mine)].size - o.hdr) \div o.pools
+                     IN e.cap0 - e.cap1 >= defcap \/ e.cap1 = 0,
+                "C18", "TailHandedOverLeavesNothing", <<o.type, o.bd, e.cap0, e.cap1, o.pools, mine>>)
        \* a request that failed without obtaining a block consumed nothing: the figures stay as they were
        \* (a memory_stack that moved on to a cached block before it failed, and a collection that handed the rest
        \* of its block to the bucket before its source refused, did consume something: cap1 # cap0 there)
